@@ -151,8 +151,10 @@ def check(repo: Repo, rep: Report) -> None:
         for g_ in f.walk():
             if g_.is_func:
                 for nd in g_.direct_nodes():
-                    if isinstance(nd, (ast.If, ast.IfExp)) and any(isinstance(x, ast.Name) and x.id == param for x in ast.walk(nd.test)):
-                        tests.append((g_, nd))
+                    if isinstance(nd, (ast.If, ast.IfExp)):
+                        from ..rules import effective_test as _et
+                        if any(isinstance(x, ast.Name) and x.id == param for x in ast.walk(_et(g_, nd.test))):
+                            tests.append((g_, nd))
         for g_, nd in tests:
             from ..rules import effective_test
             from ..astutil import atoms
